@@ -176,44 +176,21 @@ func shortTpl(s *core.Sym) string {
 	return t
 }
 
-// c09FormTask: R3 on NewTask's expanded CFG.
+// c09FormTask: R3 - forming the task.
 func (e *Env) c09FormTask() {
 	r := e.R
 	a := e.anchors()
+	e.formatterMissingRule("R3")
+	obDef := r.Ob("R3", "formatter:default", "a placeholder type matched by no arm makes exit inevitable (the placeholder is never replaced by an empty string)")
 	fi := e.formatter()
-	obArm := func(k string) *core.Obligation {
-		return r.Ob("R3", "formatter:"+k, "this condition makes exit inevitable before the task is formed")
-	}
-	if len(fi.problems) > 0 || fi.fn == nil {
-		obArm("anchors").Unknown("-", strings.Join(fi.problems, "; "))
-		return
+	if fi.ok(obDef) {
+		obDef.Check(e.fmtDefaultFatal(obDef), fi.regexPos, "unknown placeholder type ⇒ exit", "a placeholder type matched by no arm does not stop the workflow: the placeholder would be replaced by an empty string")
 	}
 	nfip := e.P.Func("NewFileIP")
-	g, err := e.P.BuildXG(a.newTask, core.XGOpts{NoInline: func(f *ssa.Function) bool { return f == nfip }})
-	if err != nil {
-		obArm("anchors").Unknown("-", err.Error())
+	g := fi.g
+	if g == nil {
 		return
 	}
-	e.formatterMissingRule("R3")
-	// unknown placeholder type
-	obDef := obArm("default")
-	nTag := 0
-	for _, n := range g.Nodes {
-		if n.Ctx.Fn != fi.fn {
-			continue
-		}
-		v, ok := n.Instr.(ssa.Value)
-		if !ok || fieldOfLoad(v) != fi.tagField || fi.tagField == nil {
-			continue
-		}
-		nTag++
-		res := g.Run(core.Scenario{Start: n, Result: core.StrAV("\x00unknown-type")})
-		obDef.Check(res.NormalReturn() == nil, g.Where(n), "unknown placeholder type ⇒ exit", "a placeholder type matched by no arm does not stop the workflow: the placeholder would be replaced by an empty string")
-	}
-	if nTag == 0 {
-		obDef.Unknown(core.FuncName(fi.fn), "load of the placeholder-type field not found")
-	}
-	// NewFileIP error and invalid path
 	obN := r.Ob("R3", "NewTask:NewFileIP-error", "an error from creating an out-IP (invalid output path) makes exit inevitable")
 	n0 := 0
 	for _, n := range g.Select(func(n *core.Node) bool { return n.IsCallToFn(nfip) }) {
@@ -222,7 +199,7 @@ func (e *Env) c09FormTask() {
 		obN.Check(res.NormalReturn() == nil, g.Where(n), "NewFileIP error ⇒ exit", "NewTask continues with a nil out-IP after NewFileIP failed")
 	}
 	if n0 == 0 {
-		obN.Unknown(core.FuncName(a.newTask), "NewTask does not call NewFileIP")
+		obN.Unknown(core.FuncName(a.newTask), "NewTask's call tree does not call NewFileIP")
 	}
 	obV := r.Ob("R3", "NewFileIP:invalid-path", "a path outside the allowed alphabet makes NewFileIP return a non-nil error")
 	if nfip != nil {
@@ -232,7 +209,6 @@ func (e *Env) c09FormTask() {
 			for _, n := range gf.Select(func(n *core.Node) bool { return n.IsCallTo("(*regexp.Regexp).MatchString", "regexp.MatchString") }) {
 				n1++
 				res := gf.Run(core.Scenario{Start: n, Result: core.BoolAV(false)})
-				// every normal return must return a non-nil error: no return of a nil error reachable
 				bad := res.Reaches(func(m *core.Node) bool {
 					if m.Kind != core.KRootRet {
 						return false
